@@ -44,6 +44,8 @@ def run(res, tier, seed, shard, nshards):
         real_tls_close(res, W)
     if shard == 3 % nshards:
         real_tcp_close_with_queued_data(res, W)
+    if shard == 4 % nshards:
+        real_tcp_close_with_blocked_reader(res, W)
     if shard == 2 % nshards:
         for peer2 in ("silent", "answers"):
             for sock_to1 in (None, 30):
@@ -763,6 +765,90 @@ def crossing_closes(res, W, tier, seed):
                 judge(out, S, f"random piece={piece}")
             except sched.SimFailure as e:
                 res.violation("hang", f"crossing closes: {type(e).__name__}: {e}", {"gen": "crossing-closes", "decisions": list(S.decisions)[:200]}, how=type(e).__name__)
+
+
+def real_tcp_close_with_blocked_reader(res, W):
+    """Real TCP: a second thread sits in recv() (no timeout) while close(timeout=...) is called.  The transport is released for real: the
+    server sees the close frame and then the end of the stream, and the blocked reader comes back with the connection-closed exception
+    (closing a descriptor alone does neither while a recv() on it is in flight).  Generous limits; has to reproduce twice."""
+    import socket
+    import threading
+    import time
+    for close_to in (0, 0.3):
+        for attempt in range(2):
+            lsock = socket.socket()
+            lsock.setsockopt(socket.SOL_SOCKET, socket.SO_REUSEADDR, 1)
+            lsock.bind(("127.0.0.1", 0))
+            lsock.listen(1)
+            port = lsock.getsockname()[1]
+            seen = {"bytes": bytearray(), "eof_at": None}
+            t0 = time.monotonic()
+
+            def server(lsock=lsock, seen=seen):
+                try:
+                    lsock.settimeout(10)
+                    c, _ = lsock.accept()
+                    c.settimeout(8)
+                    buf = b""
+                    while b"\r\n\r\n" not in buf:
+                        d = c.recv(4096)
+                        if not d:
+                            return
+                        buf += d
+                    c.sendall(H.response_101(H.request_key(buf) or ""))
+                    while True:
+                        d = c.recv(4096)  # never answers the close frame
+                        if not d:
+                            seen["eof_at"] = time.monotonic()
+                            break
+                        seen["bytes"].extend(d)
+                    c.close()
+                except OSError:
+                    pass
+                finally:
+                    lsock.close()
+            st = threading.Thread(target=server, daemon=True)
+            st.start()
+            box = {}
+            try:
+                w = W.create_connection(f"ws://127.0.0.1:{port}/", timeout=None)
+            except Exception as e:  # noqa
+                res.notes["real_tcp_close_with_blocked_reader"] = f"could not connect: {e}"
+                return
+
+            def reader(w=w, box=box):
+                try:
+                    box["got"] = w.recv()
+                except BaseException as e:  # noqa
+                    box["exc"] = e
+                box["reader_done"] = time.monotonic()
+            rt = threading.Thread(target=reader, daemon=True)
+            rt.start()
+            time.sleep(0.3)  # let the reader block
+            tc = time.monotonic()
+            try:
+                w.close(timeout=close_to)
+            except Exception as e:  # noqa
+                box["close_exc"] = e
+            rt.join(4.0)
+            st.join(6.0)
+            res.count("real_tcp_close_with_blocked_reader_runs")
+            frames, _ = R.decode_all(bytes(seen["bytes"]))
+            problems = []
+            if seen["eof_at"] is None or seen["eof_at"] - tc > 3.0 + close_to:
+                problems.append("the server did not see the end of the stream within 3 s of close()")
+            if rt.is_alive():
+                problems.append("the reader blocked in recv() never came back")
+            elif not isinstance(box.get("exc"), W.WebSocketConnectionClosedException):
+                problems.append(f"the blocked reader came back with {box.get('exc')!r} / {box.get('got')!r}")
+            if sum(1 for f in frames if f.opcode == R.CLOSE) != 1:
+                problems.append(f"{sum(1 for f in frames if f.opcode == R.CLOSE)} close frames reached the server")
+            if not problems:
+                break
+            if attempt == 1:
+                res.violation("transport-not-released", f"real TCP, a thread blocked in recv() while close(timeout={close_to}) is called: " + "; ".join(problems),
+                              {"gen": "real-tcp-blocked-reader", "close_timeout": close_to}, step_call="close", via="close", prior="blocked-reader",
+                              close_waits_for_reply=bool(close_to), reader_came_back=not rt.is_alive())
 
 
 def real_tcp_close_with_queued_data(res, W):
